@@ -1041,6 +1041,11 @@ func (io *invertedIndexOpaque) Reset() (err error) {
 
 	io.tmp0 = io.tmp0[:0]
 	io.extraDocValues = nil
+	// the section addresses belong to the build that wrote them: an empty
+	// batch writes no dictionaries and must not hand out the previous ones
+	for fieldID := range io.fieldAddrs {
+		delete(io.fieldAddrs, fieldID)
+	}
 	atomic.StoreUint64(&io.bytesWritten, 0)
 	io.fieldsSame = false
 	io.numDocs = 0
